@@ -120,6 +120,23 @@ def rule_r1(ctx):
             continue
         evs, w = path_events(pr) if "events" in pr.extra or hasattr(pr, "result") else ([], None)
         bound = {id(e.extra.get("fresh")) for e in evs if e.kind == "bind-fresh"}
+        # one temporary per purpose: a fresh name created once must not be re-bound once per
+        # element of a user list (nested / chained patterns would clobber each other's temporary)
+        for e in evs:
+            if e.kind != "bind-fresh":
+                continue
+            fr = e.extra.get("fresh")
+            created_in = [m for m in getattr(fr, "rep", [])]
+            bound_in = [m for m in e.mult if not m.startswith("iterations@")]
+            what = f"{origin}|fresh-scope|{e.path}|{e.site}"
+            if len(bound_in) > len(created_in):
+                rr.fail(
+                    f"C09-R1|{kind}|{e.path}|shared-temporary",
+                    f"{origin} ({e.site}): the temporary from {e.path} is created once (at {getattr(fr, 'site', '?')}) but bound once per element of {bound_in[-1]}: nested or chained patterns share one name and overwrite each other's value (`(a, b), c = (1, 2), 3` gives c == 2)",
+                    where=e.site, what=what,
+                )
+            else:
+                rr.ok(what, nontrivial=False)
         for e in evs:
             if e.kind == "load-fresh":
                 fr = e.extra.get("fresh")
@@ -221,4 +238,13 @@ def rule_r3(ctx):
     return rr
 
 
-RULES = [("C09-R1", rule_r1), ("C09-R2", rule_r2), ("C09-R3", rule_r3)]
+def rule_bootstrap(ctx):
+    """The un-suffixed helper globals itertools / importlib / __ol_iter_wrapper must be bound by
+    the output itself, unconditionally at its head (rule C14-R5): relying on a user binding of the
+    same spelling makes the program depend on the identifiers the user chose."""
+    from .c14 import rule_r5
+
+    return rule_r5(ctx)
+
+
+RULES = [("C09-R1", rule_r1), ("C09-R2", rule_r2), ("C09-R3", rule_r3), ("C14-R5", rule_bootstrap)]
